@@ -137,9 +137,39 @@ class SingleFieldSubscriptionsChecker(ValidationVisitor):
     root field.
     """
 
+    def enter_document(self, node):
+        self._fragments = {
+            d.name.value: d
+            for d in node.definitions
+            if isinstance(d, _ast.FragmentDefinition)
+        }
+
+    def _root_fields(self, selections, seen):
+        # Response names of the root fields, looking through fragments.
+        for selection in selections:
+            if isinstance(selection, _ast.Field):
+                yield selection.response_name
+            elif isinstance(selection, _ast.InlineFragment):
+                for name in self._root_fields(
+                    selection.selection_set.selections, seen
+                ):
+                    yield name
+            elif isinstance(selection, _ast.FragmentSpread):
+                name = selection.name.value
+                fragment = self._fragments.get(name)
+                if fragment is not None and name not in seen:
+                    seen.add(name)
+                    for name in self._root_fields(
+                        fragment.selection_set.selections, seen
+                    ):
+                        yield name
+
     def enter_operation_definition(self, node):
         if node.operation == "subscription":
-            if len(node.selection_set.selections) != 1:
+            root_fields = set(
+                self._root_fields(node.selection_set.selections, set())
+            )
+            if len(root_fields) != 1:
                 if node.name:
                     msg = (
                         'Subscription "%s" must select only one top level field.'
